@@ -70,7 +70,7 @@ func genEnum(stream string, limit int, outp string) {
 			}
 			for _, eds := range edsVariants {
 				for _, s := range states {
-					for _, names := range append(subsets(univ), []string{"a", "a"}) {
+					for _, names := range append(subsets(univ), []string{"a", "a"}, []string{"*"}, []string{"a", "*"}) {
 						for _, nonce := range []string{"", "n1", "zz"} {
 							for _, e := range []string{"-", "e:boom"} {
 								if !open() {
